@@ -494,7 +494,7 @@ impl<'a> ExprGen<'a> {
                     format!("{}.matches({})", self.expr(&Ty::Str, d), str_literal(pat))
                 }
                 15 => {
-                    let field = *self.rng.pick(&["a", "b", "ab", "hello", "x"]);
+                    let field = *self.rng.pick(&["a", "b", "ab", "hello", "x", "size", "min", "contains", "string", "matches"]);
                     format!("has({}.{field})", self.expr(&Ty::Map(Box::new(Ty::Str), Box::new(Ty::Int)), d))
                 }
                 16..=18 if self.macros => {
